@@ -105,3 +105,59 @@ Theorem C14_minmax_attained : forall args,
              /\ forall x, In x (nums (cells_of args)) -> (qv m <= qv x)%Q).
 Proof. exact minmax_attained. Qed.
 Print Assumptions C14_minmax_attained.
+
+(* SUMPRODUCT.  arr rows = a range as pycel passes it; rect_ok = a rectangle
+   of scalar cells with at least one row and column; cellsq = its cells as
+   rationals, non-numbers (text, numeric text, logicals, blanks) as 0 *)
+Theorem C14_sumproduct : forall m0 ms,
+  Forall rect_ok (m0 :: ms) -> (forall m, In m ms -> shape m = shape m0) ->
+  first_error (cells_of (map arr (m0 :: ms))) = None ->
+  exists r, sumproduct (VTuple (map arr (m0 :: ms))) = Ok r /\ numeric r = true
+            /\ (qv r == sumq (fold_left zipq (map cellsq ms) (cellsq m0)))%Q.
+Proof. exact sumproduct_thm. Qed.
+Print Assumptions C14_sumproduct.
+
+Theorem C14_sumproduct_two : forall a b,
+  Forall rect_ok [a; b] -> shape b = shape a ->
+  first_error (cells_of [arr a; arr b]) = None ->
+  exists r, sumproduct (VTuple [arr a; arr b]) = Ok r /\ numeric r = true
+            /\ (qv r == sumq (zipq (cellsq a) (cellsq b)))%Q.
+Proof. exact sumproduct_two. Qed.
+Print Assumptions C14_sumproduct_two.
+
+Theorem C14_sumproduct_first_error : forall args pre e post,
+  scalars (cells_of args) -> cells_of args = pre ++ e :: post ->
+  is_err e = true -> Forall (fun v => is_err v = false) pre ->
+  sumproduct (VTuple args) = Ok e.
+Proof. exact sumproduct_first_error. Qed.
+Print Assumptions C14_sumproduct_first_error.
+
+Theorem C14_sumproduct_unequal : forall mats m1 m2,
+  Forall rect_ok mats -> first_error (cells_of (map arr mats)) = None ->
+  In m1 mats -> In m2 mats -> shape m1 <> shape m2 ->
+  sumproduct (VTuple (map arr mats)) = Ok excelutil.c_VALUE_ERROR.
+Proof. exact sumproduct_unequal. Qed.
+Print Assumptions C14_sumproduct_unequal.
+
+(* SUBTOTAL(n, ...) / SUBTOTAL(100+n, ...) = the aggregate the generated table
+   names (the literal function number as emitted text: "1", "101", ...) *)
+Theorem C14_subtotal : forall v_args,
+  (subtotal (lit [49]) v_args = stats.f_average v_args
+   /\ subtotal (lit [49; 48; 49]) v_args = stats.f_average v_args)
+  /\ (subtotal (lit [50]) v_args = stats.f_count v_args
+      /\ subtotal (lit [49; 48; 50]) v_args = stats.f_count v_args)
+  /\ (subtotal (lit [52]) v_args = stats.f_max_ v_args
+      /\ subtotal (lit [49; 48; 52]) v_args = stats.f_max_ v_args)
+  /\ (subtotal (lit [53]) v_args = stats.f_min_ v_args
+      /\ subtotal (lit [49; 48; 53]) v_args = stats.f_min_ v_args)
+  /\ (subtotal (lit [57]) v_args = aggregates.f_sum_ v_args
+      /\ subtotal (lit [49; 48; 57]) v_args = aggregates.f_sum_ v_args).
+Proof. exact subtotal_thm. Qed.
+Print Assumptions C14_subtotal.
+
+(* among the literals 0..120 exactly these ten resolve to one of the five
+   aggregates (finite domain, by computation) *)
+Theorem C14_subtotal_domain :
+  filter subtotal_known (zrange 121 0) = [1; 2; 4; 5; 9; 101; 102; 104; 105; 109].
+Proof. exact subtotal_domain. Qed.
+Print Assumptions C14_subtotal_domain.
